@@ -18,7 +18,8 @@ PROOF_UNITS = {
     'C01': _kernel_units('removal'),
     'C03': _kernel_units('removal'),
     'C04': _kernel_units('removal'),
-    'C05': _kernel_units('removal'),
+    'C05': _kernel_units('removal') + [('contracts.kernel', 'AddInteraction', (cls,), {'mode': 'removal', 't': 'int', 'e': e, 'inv': 'strong'})
+                                       for cls in ('DynGraph', 'DynDiGraph') for e in ('none', 'int')],
     'C07': _kernel_units('removal') + _kernel_units('accum'),
     'C08': _kernel_units('accum'),
 }
@@ -28,6 +29,10 @@ BOUNDED_PARTS = {
 }
 
 LEVELS = {
+    'C01': 'other', 'C03': 'other', 'C04': 'other', 'C05': 'other', 'C07': 'other', 'C08': 'other',
+}
+
+EXPLANATIONS = {
 }
 
 TRUSTED_BASE = [
